@@ -301,7 +301,8 @@ func runShard(bin, id, tier string, seed uint64, shard, n int, mode, tmpdir stri
 			}
 		}
 		summary, lastBegin, hang, oom := readChildOut(out)
-		if summary != nil && werr == nil {
+		if summary != nil {
+			// (the race detector makes the process exit with status 66 after a complete run)
 			res.rec = summary
 			return res
 		}
